@@ -343,3 +343,5 @@ CONTRACTS = [
 from contracts import c33 as _c33
 # what hooks write while a flush is in progress belongs to the committed state too (contracted end to end under C33 and shared here)
 CONTRACTS += [c for c in _c33.CONTRACTS if c.id == 'hooks_end_to_end']
+from contracts import c16 as _c16
+CONTRACTS += [c for c in _c16.CONTRACTS if c.id == 'scripts_under_immediate_foreign_keys']          # the committed rows of every orderable script equal the reference model (shared with C16)
